@@ -62,7 +62,14 @@ func init() {
 				}
 				emit(sx.L(sx.A("foot"), u.sx(), ops))
 			}
+			// whole schema operations and lazily decoded object defaults (c13_footops.go)
+			genFootOps(r, tier, emit)
 		},
-		Run: runFootCase,
+		Run: func(p *sx.Node) *sx.Node {
+			if p.Head() == "footops" {
+				return runFootOpsCase(p)
+			}
+			return runFootCase(p)
+		},
 	}
 }
